@@ -294,6 +294,7 @@ async fn exec<const N: usize>(st: &mut St<N>, ctx: &mut Ctx, toks: &[&str]) {
             }
             ctx.emit("cfgnext");
         }
+        ("nop", _) => ctx.emit("nop"),
         ("know", [len, seed]) => {
             // register a payload written by an earlier process so that reads can name it
             let len: usize = len.parse().unwrap();
